@@ -11,6 +11,7 @@ import (
 	"testing"
 	"testing/iotest"
 
+	chunk "github.com/ipfs/boxo/chunker"
 	"github.com/ipfs/go-cid"
 	"github.com/ipfs/go-unixfsnode/data/builder"
 	quickbuilder "github.com/ipfs/go-unixfsnode/data/builder/quick"
@@ -207,6 +208,60 @@ func TestC11(t *testing.T) {
 				})
 			}
 		}
+	}
+	// content-defined chunks: two neighbouring interior nodes with the same number of children and the
+	// same total, but other chunk lengths (searched for among random contents)
+	for _, w := range []int{2, 3} {
+		w := w
+		r.Case(fmt.Sprintf("file-rabin-equal-totals/w%d", w), map[string]any{"chunker": "rabin-16-32-64", "width": w}, func(c *mon.Case) {
+			rr := c.Rand()
+			found := 0
+			for try := 0; try < 3000 && found < 3; try++ {
+				content := gen.Content(rr, "rand", 500+rr.Intn(400))
+				spl, err := chunk.FromString(bytes.NewReader(content), "rabin-16-32-64")
+				if err != nil {
+					c.Harness("chunker: %v", err)
+					return
+				}
+				var lens []int
+				for {
+					b, err := spl.NextBytes()
+					if err != nil {
+						break
+					}
+					lens = append(lens, len(b))
+				}
+				hit := false
+				for k := 0; k+2*w <= len(lens); k += w {
+					s1, s2, same := 0, 0, true
+					for j := 0; j < w; j++ {
+						s1 += lens[k+j]
+						s2 += lens[k+w+j]
+						if lens[k+j] != lens[k+w+j] {
+							same = false
+						}
+					}
+					if s1 == s2 && !same {
+						hit = true
+					}
+				}
+				if !hit {
+					continue
+				}
+				found++
+				st := store.New()
+				var l ipld.Link
+				var sz uint64
+				withWidth(w, func() { l, sz, err = builder.BuildUnixFSFile(bytes.NewReader(content), "rabin-16-32-64", st.LinkSystem(false)) })
+				if err != nil {
+					c.Violation("C11|build-error", "%v", err)
+					return
+				}
+				checkSizes(c, st, linkCid(l), sz, fmt.Sprintf("file w%d rabin-16-32-64 %d bytes whose neighbouring interior nodes have equal totals and different chunk lengths", w, len(content)))
+				c.Count("files_with_equal_total_neighbours", 1)
+			}
+			c.Sig(fmt.Sprintf("file-rabin-equal-totals|w%d", w), found > 0)
+		})
 	}
 	// a link system whose encoder table knows dag-pb but not raw (a private multicodec registry): the
 	// builder cannot store leaves through it. It may refuse; what it may not do is come back with sizes
